@@ -458,6 +458,14 @@ def r5_serial_equals_worker(ctx):
                 if (p.ret is None) != (s.ret is None):
                     ag.add(f"{q}: the parallel path with {ws} and the serial path leave the function at the same place", False, fn)
                     continue
+                ub_p = {(f_, n_) for c, nd, n_, f_ in p.sim.unbound_locals}
+                ub_s = {(f_, n_) for c, nd, n_, f_ in s.sim.unbound_locals}
+                for f_, n_ in sorted(ub_p ^ ub_s):
+                    nd = next(nd for c, nd, n2, f2 in p.sim.unbound_locals + s.sim.unbound_locals if (f2, n2) == (f_, n_))
+                    ag.add(f"{f_}: local `{n_}` is bound before it is read", False, nd,
+                           "read before assignment on the " + ("parallel" if (f_, n_) in ub_p else "serial") + " path only: UnboundLocalError there")
+                if ub_p & ub_s:
+                    raise Unsup(f"{q}: local {sorted(ub_p & ub_s)[0][1]} is read before it is bound on the parallel and on the serial path")
                 names = ["<return value>"] if p.ret is not None else sorted(live)
                 other_ok = True
                 for n in names:
@@ -492,7 +500,7 @@ def r5_serial_equals_worker(ctx):
                        nontrivial=False)
                 # iteration space
                 for L in p.sim.launches:
-                    loops = [lfm for lfm, st, c in getattr(s.sim, "loops", []) if c[0] == "parent" and lfm.count is not None
+                    loops = [lfm for lfm, st, c in s.sim.loops if c[0] == "parent" and lfm.count is not None
                              and any(lfm.fid in e.frames for e in s.sim.events)]
                     outer = [l for l in loops if not any(l2.fid != l.fid and any(l2.fid in e.frames and l.fid in e.frames and
                                                                               e.frames.index(l2.fid) < e.frames.index(l.fid) for e in s.sim.events)
